@@ -17,7 +17,7 @@ struct Case {
   int by_path = 0;
   bytes raw;  // when base == -1: the whole file content literally
   bytes fuzz; // when non-empty: a libFuzzer input; decoded by decode_fuzz() into the fields above
-  bool valid() const { return base >= -1 && base < 12 && muts.size() <= 8 && raw.size() <= (1u << 20); }
+  bool valid() const { return base >= -1 && base < 19 && muts.size() <= 8 && raw.size() <= (1u << 20); }
   std::string ser() const {
     Out o;
     o << "property C19\nfile base=" << base << " verify=" << verify << " by_path=" << by_path << "\n";
@@ -88,7 +88,7 @@ static bytes ref_file(int version, int algo, const KVs &kv, size_t per_block, co
   }
   return ref::encode_file(f);
 }
-static const int NBASE = 12;
+static const int NBASE = 19;
 static bytes make_base(int id) {
   WConfig c;
   c.block_size = 1024;
@@ -104,7 +104,17 @@ static bytes make_base(int id) {
     case 8: c.comp = 1; c.restart = 1; return fd_contents(write_table(c, base_entries(25, 100, "s")));
     case 9: return ref_file(1, ref::NONE, KVs(), 1, bytes());
     case 10: c.comp = 5; c.prefix_len = 512; return fd_contents(write_table(c, base_entries(8, 400, "zs")));
-    default: c.comp = 0; c.restart = 2; return fd_contents(write_table(c, base_entries(200, 3, "")));
+    case 11: c.comp = 0; c.restart = 2; return fd_contents(write_table(c, base_entries(200, 3, "")));
+    default: {
+      // files that are little more than a trailer: 512..528 bytes of zeros with a valid magic (the writer's smallest table
+      // is 525 bytes; these sit at and below the minimum the reader has to reject or survive)
+      static const int sizes[] = {512, 520, 524, 525, 512, 527, 528};
+      int k = (id - 12) % 7;
+      bytes b((size_t)sizes[k], '\0');
+      uint32_t magic = k < 4 ? ref::MAGIC_V2 : ref::MAGIC_V1;
+      for (int i = 0; i < 4; i++) b[b.size() - 4 + (size_t)i] = (char)((magic >> (8 * i)) & 0xff);
+      return b;
+    }
   }
 }
 static void put_le(bytes &img, size_t off, uint64_t v, int n) {
